@@ -77,11 +77,13 @@ class ClientSession:
 
     async def _on_soup_close(self):
         await self._message_queue.stop()
+        # closed from here on: a close() issued by the close callback itself must return at once
+        # instead of waiting for an event that is only set after that callback has returned
+        self.closed = True
         if self.on_close_coro is not None:
             await self.on_close_coro()
         if self._close_event:
             self._close_event.set()
-        self.closed = True
 
     def decode(self, bytes_: bytes):
         """
